@@ -72,24 +72,39 @@ func runC02(c *Ctx) {
 		}
 	}
 	ruleGoal := func(table string) *pa.F {
-		mk := A.AtomIndex("mapok(" + table + "," + keySym + ")")
-		if mk < 0 {
-			return pa.False
-		}
-		pfx := "lookup(" + table + "," + keySym + ")#0["
-		var alts []*pa.F
-		for i, at := range A.Atoms {
-			k := at.Key
-			if strings.HasPrefix(k, "("+pfx) && strings.HasSuffix(k, "].regexp == nil)") {
-				P := k[1 : len(k)-len(".regexp == nil)")]
-				alts = append(alts, pa.AtomF(i))
-				ms := A.AtomIndex("(*regexp.Regexp).MatchString(" + P + ".regexp," + valSym + ")")
-				if ms >= 0 {
-					alts = append(alts, pa.AtomF(ms))
+		// the rule list for this key: found by a comma-ok lookup (then the ok flag is part of the condition) or by a
+		// plain lookup (a missing key yields an empty list, which admits nothing)
+		var goals []*pa.F
+		for _, form := range []struct {
+			pfx    string
+			needOK bool
+		}{{"lookup(" + table + "," + keySym + ")#0[", true}, {"lookup(" + table + "," + keySym + ")[", false}} {
+			var alts []*pa.F
+			for i, at := range A.Atoms {
+				k := at.Key
+				if strings.HasPrefix(k, "("+form.pfx) && strings.HasSuffix(k, "].regexp == nil)") {
+					P := k[1 : len(k)-len(".regexp == nil)")]
+					alts = append(alts, pa.AtomF(i))
+					ms := A.AtomIndex("(*regexp.Regexp).MatchString(" + P + ".regexp," + valSym + ")")
+					if ms >= 0 {
+						alts = append(alts, pa.AtomF(ms))
+					}
 				}
 			}
+			if len(alts) == 0 {
+				continue
+			}
+			if form.needOK {
+				mk := A.AtomIndex("mapok(" + table + "," + keySym + ")")
+				if mk < 0 {
+					continue
+				}
+				goals = append(goals, pa.And(pa.AtomF(mk), pa.Or(alts...)))
+			} else {
+				goals = append(goals, pa.Or(alts...))
+			}
 		}
-		return pa.And(pa.AtomF(mk), pa.Or(alts...))
+		return pa.Or(goals...)
 	}
 	apsGoal := ruleGoal(apsP.Name())
 	globGoal := ruleGoal(recv.Name() + "." + F.Get("globalAttrs"))
@@ -419,7 +434,7 @@ func c02DataAttr(c *Ctx) {
 	A := model.NewAnalysis(fn)
 	translateAll(A)
 	type use struct {
-		v    *pats.Var
+		v     *pats.Var
 		onSeg bool
 	}
 	var uses []use
